@@ -34,7 +34,7 @@ PROPS["C16"] = dict(l1_ops=[], l1_algo=["avg_bi", "avg_w", "avg_fl", "avg_fr"], 
 PROPS["C17"] = dict(l1_ops=[], l1_algo=["decasteljau"], l2_algo="C17", box=True,
                     n_l1=(60, 600), n_l2=(10, 150))
 PROPS["C18"] = dict(l1_ops=[], l1_approx=True, l2_algo="C18", n_l1=(200, 4000), n_l2=(60, 1500))
-PROPS["C13"] = dict(l1_ops=[], l1_ctor=True, l2_algo="C13", n_l1=(1200, 20000), n_l2=(60, 1500))
+PROPS["C13"] = dict(l1_ops=[], l1_ctor=True, custom="c13", l2_algo="C13", n_l1=(1200, 20000), n_l2=(60, 1500))
 PROPS["C08"] = dict(l1_ops=[], custom="c08", n_l1=(0, 0), n_l2=(0, 0))
 PROPS["C09"] = dict(l1_ops=[], custom="c09", n_l1=(0, 0), n_l2=(0, 0))
 PROPS["C10"] = dict(l1_ops=[], custom="c10", n_l1=(0, 0), n_l2=(0, 0))
@@ -85,6 +85,18 @@ def case_from_request(pid, line, r):
         return dict(prop=pid, group=group, kind="c06", reqs=reqs, tags=tags, t=tt)
     if pid == "C06" and op == "adj":
         return dict(prop=pid, group=group, kind="c06adj", reqs=[gen.req(dbg, "o", group, "adj", 0, a[:R])], tags=tags, X=a[:R])
+    if pid == "C04" and l1.CANON.get(op, op) in ("rminus", "lminus", "between", "rplus", "lplus"):
+        cop = l1.CANON.get(op, op)
+        if cop in ("rplus", "lplus"):
+            X, tt = a[:R], a[R:R + D]
+            Y = gen.nudge(r, group, X)[0]
+        else:
+            X, Y = (a[R:2 * R], a[:R]) if cop != "between" else (a[:R], a[R:2 * R])     # rminus(Y, X) = Y - X
+            tt = gen.tangent(r, group, lin_only=["zero", "tiny"], angle_only=["small", "above-switch", "low"])[0]
+        reqs = [gen.req(dbg, "o", group, "rplus", 0, X + tt), gen.req(dbg, "o", group, "lplus", 0, X + tt),
+                gen.req(dbg, "o", group, "rminus", 0, Y + X), gen.req(dbg, "o", group, "lminus", 0, Y + X),
+                gen.req(dbg, "o", group, "between", 0, X + Y)]
+        return dict(prop=pid, group=group, kind="c04", stage2="c04", reqs=reqs, tags=tags, X=X, Y=Y, t=tt)
     if pid == "C05" and op in l1.MASKS:
         c = dict(prop=pid, group=group, kind="c05", op=op, tags=tags)
         full = 3 if l1.MASKS[op] == 4 else 1
@@ -271,7 +283,7 @@ def _purity(kind):
             base = []
             for l in lines:
                 t = l.split()
-                if t[3].startswith(("blk_", "self_")) or t[2] not in MODELLED:
+                if t[3].startswith(("blk_", "self_", "assign_")) or t[2] not in MODELLED:
                     continue
                 t[4] = str(int(t[4]) & 127)
                 base.append(" ".join(t))
@@ -285,6 +297,20 @@ def _purity(kind):
                     bad.append(dict(request=l, tags=[kind], impl=a, model=b, why=why))
             if lines and len(res.cov["samples"]) < 3:
                 res.cov["samples"].append(dict(kind=kind, request=lines[0]))
+        if kind == "c10":
+            # the same self-consistency run on builds with Eigen's vectorisation ON: views sit at
+            # addresses that are never 16-byte aligned, so any code path that assumes alignment
+            # of a viewed buffer faults (eigen_assert in the assertion build, SIGSEGV otherwise)
+            for dbg in (True, False):
+                ok, exe = vlib.harness_build(dbg, vectorize=True)
+                if not ok:
+                    viol.append(dict(property="C10", group="*", op="build", output="compile", tags=["vectorized"], request="harness with Eigen vectorisation",
+                                     what="harness does not compile with vectorisation: " + exe[-800:], err=float("inf"), tol=0.0))
+                    continue
+                v, lines, cells = purity.run_c10(exe, groups, r, max(2, n // 2), dbg)
+                viol += v
+                total += len(lines)
+                res.add_cells([(kind, "vectorized") + tuple(c) + (dbg,) for c in cells])
         return bad, viol, total
     return run
 
@@ -361,6 +387,67 @@ def custom_c19(builds, r, thorough, res):
     return bad, viol, n + m["cells"]
 
 
+def custom_c13(builds, r, thorough, res):
+    """cast<>() between float and double: model (L1, both directions) and validity of the result"""
+    import math
+    bad, viol, n = [], [], 0
+    fb = float_builds("C13", res)
+    if not fb:
+        return bad, viol, n
+    k = 60 if thorough else 8
+    groups = ALL_GROUPS + ["B:SE2,SO3,R2", "B:SO3,SE2,R5,SO3"]
+    for mode, exe, drv, eps_t in (("d2f", builds[True], None, gen.EPS_F), ("f2d", fb[True], [vlib.DRIVER, "f32"], gen.EPS_D)):
+        reqs = []
+        ctx = gen.float32() if mode == "f2d" else None
+        if ctx:
+            ctx.__enter__()
+        try:
+            for g in groups:
+                for _ in range(k):
+                    a, tags = gen.element(r, g, norm="valid")
+                    reqs.append((gen.req(True, r.choice("omc"), g, "cast", 0, a), ["cast", mode, g] + tags))
+        finally:
+            if ctx:
+                ctx.__exit__()
+        lines = [q[0] for q in reqs]
+        _, impl, _ = vlib.run_lines_parallel(exe, lines)
+        mreqs = [(q, i) for i, q in enumerate(reqs) if q[1][2] in MODELLED]
+        _, model, _ = vlib.run_lines_parallel(drv or vlib.DRIVER, [q[0] for q, _ in mreqs])
+        n += len(lines) + len(mreqs)
+        for (q, i), b in zip(mreqs, model):
+            eq, why = l1.compare(impl[i], b, (q[1][2], "cast"))
+            if not eq:
+                bad.append(dict(request=q[0], tags=q[1], impl=impl[i], model=b, why=why, scalar="float" if mode == "f2d" else "double"))
+        for (line, tags), a in zip(reqs, impl):
+            g = tags[2]
+            res.add_cells([("cast", mode, g) + tuple(x.split("/")[0] for x in tags[3:])])
+            t = a.split()
+            if t[0] != "ok":
+                viol.append(dict(property="C13", group=g + ("<float>" if mode == "f2d" else ""), op="cast", output="status", tags=tags, request=line,
+                                 what="cast<>() of a valid element raised: " + " ".join(t[:2]), err=float("inf"), tol=0.0))
+                continue
+            c = [gen.of_hex(x) for x in t[1:]]
+            src = [gen.of_hex(x) for x in line.split()[5:]]
+            i = 0
+            for kind, m in gen.GROUPS[g]["rep"]:
+                if kind in ("complex", "quat"):
+                    dev = abs(math.sqrt(sum(x * x for x in c[i:i + m])) - 1.0)
+                    if not dev < eps_t:
+                        viol.append(dict(property="C13", group=g + ("<float>" if mode == "f2d" else ""), op="cast", output="validity", tags=tags, request=line,
+                                         what="cast<>() returned an element that is not valid in the new scalar type (|norm-1| = %.3g)" % dev,
+                                         err=dev, tol=eps_t))
+                        break
+                i += m
+            sc = max([1.0] + [abs(x) for x in src if math.isfinite(x)])
+            # same element: a valid source may be off unit norm by up to eps_float, which the cast removes,
+            # so coefficients agree to 2 eps_float (+ rounding), relative to the largest coordinate
+            err = max([abs(x - y) for x, y in zip(c, src) if math.isfinite(x) and math.isfinite(y)] + [0.0])
+            if err > 3e-5 * sc and len(c) == len(src):
+                viol.append(dict(property="C13", group=g + ("<float>" if mode == "f2d" else ""), op="cast", output="value", tags=tags, request=line,
+                                 what="cast<>() changed the element beyond single precision", err=err, tol=3e-5 * sc))
+    return bad, viol, n
+
+
 def custom_c12(builds, r, thorough, res):
     """dual-number and single-precision instantiations (see jets.py), plus the Float32 model"""
     import jets
@@ -399,7 +486,7 @@ def custom_c12(builds, r, thorough, res):
     return bad, viol, n
 
 
-CUSTOM = {"c12": custom_c12, "c19": custom_c19, "c08": custom_c08, "c09": _purity("c09"), "c10": _purity("c10")}
+CUSTOM = {"c13": custom_c13, "c12": custom_c12, "c19": custom_c19, "c08": custom_c08, "c09": _purity("c09"), "c10": _purity("c10")}
 
 
 def proof_cov(po):
